@@ -1,9 +1,81 @@
 import Lean.Data.Json
-/-! Line-protocol handler for property C18 (model side of the correspondence). -/
-namespace Drv.C18
-open Lean
+import SpoxModel.Model.Custom
+import SpoxModel.Drv.C11
+/-! Line-protocol handler for C18 (model side of the correspondence).
 
-/-- One request (a JSON value) in, one response (a JSON value) out. -/
-def handle (_req : Json) : Json := Json.mkObj [("error", "unimplemented")]
+`{"kind":"node", …}`   : `Custom.toOnnx` (plain `Node`: nothing trimmed) + `opsetReq`
+`{"kind":"opsets", "reqs":[[d,v]…]}` : `Custom.maxOpsetPolicy`
+`{"kind":"infer", …}`  : `Custom.inference` + `Custom.validateWarnings`; types and values are opaque
+                          tokens, `check` is given as the list of passing (type, value) pairs -/
+namespace Drv.C18
+open Lean Emit Custom
+
+def optStr (j : Json) (k : String) : Option String :=
+  match j.getObjVal? k with
+  | .ok (Json.str s) => some s
+  | _ => none
+
+def pairs (j : Json) : Except String (List (String × String)) := do
+  let l ← fromJson? (α := List (List String)) j
+  l.mapM fun
+    | [a, b] => pure (a, b)
+    | _ => throw "bad pair"
+
+def warnJson : Warn → Json
+  | .dropped k => Json.arr #["dropped", k]
+  | .missing k => Json.arr #["missing", k]
+  | .notConcrete k => Json.arr #["notConcrete", k]
+
+def handleNode (req : Json) : Except String Json := do
+  let ins ← (← req.getObjValAs? (List Json) "inputs").mapM Drv.C11.parseArg
+  let outs ← (← req.getObjValAs? (List Json) "outputs").mapM Drv.C11.parseArg
+  let attrs ← (← req.getObjValAs? (List Json) "attrs").mapM Drv.C11.parseAttr
+  let n : NodeIn String String :=
+    { opType := ← req.getObjValAs? String "op", domain := ← req.getObjValAs? String "domain",
+      version := ← req.getObjValAs? Nat "version", mins := none,
+      inputs := ins, outputs := outs, attrs := attrs }
+  return Json.mkObj [("nodes", Json.arr ((toOnnx n).map fun p => Drv.C11.nodeJson p (opsetReq n)).toArray)]
+
+def handleOpsets (req : Json) : Except String Json := do
+  let l ← req.getObjValAs? (List Json) "reqs"
+  let reqs ← l.mapM fun
+    | Json.arr #[Json.str d, v] => do pure (d, ← fromJson? (α := Nat) v)
+    | _ => throw "bad req"
+  return Json.mkObj [("imports", Json.arr ((maxOpsetPolicy reqs).map fun (d, v) =>
+    Json.arr #[Json.str d, toJson v]).toArray)]
+
+def handleInfer (req : Json) : Except String Json := do
+  let outsJ ← req.getObjValAs? (List Json) "outs"
+  let outs ← outsJ.mapM fun o => do
+    return ({ key := ← o.getObjValAs? String "key", type := optStr o "type",
+              value := optStr o "value" } : OutState String String)
+  let thook ← pairs (← req.getObjVal? "thook")
+  let vhook ← pairs (← req.getObjVal? "vhook")
+  let pass ← pairs (← req.getObjVal? "check")
+  let check : String → String → Bool := fun t v => pass.contains (t, v)
+  let level ← req.getObjValAs? Nat "level"
+  let concrete ← req.getObjValAs? (List String) "concrete"
+  let inTypesJ ← req.getObjValAs? (List Json) "inTypes"
+  let inTypes : List (Option String) := inTypesJ.map fun
+    | Json.str s => some s
+    | _ => none
+  let (res, warns) := inference check thook vhook outs
+  let vw := validateWarnings level (fun t => concrete.contains t) inTypes res
+  return Json.mkObj [
+    ("outs", Json.arr (res.map fun o => Json.mkObj [("key", o.key),
+        ("type", match o.type with | some t => Json.str t | none => Json.null),
+        ("value", match o.value with | some v => Json.str v | none => Json.null)]).toArray),
+    ("warns", Json.arr ((warns ++ vw).map warnJson).toArray)]
+
+def handle (req : Json) : Json :=
+  match (do
+    let kind ← req.getObjValAs? String "kind"
+    match kind with
+    | "node" => handleNode req
+    | "opsets" => handleOpsets req
+    | "infer" => handleInfer req
+    | _ => throw "unknown kind") with
+  | .ok j => j
+  | .error e => Json.mkObj [("error", e)]
 
 end Drv.C18
